@@ -63,6 +63,7 @@ var serverScenarios = []struct{ name, prop string }{
 	{"restart-serving", "C18"},
 	{"placement-members", "C16"},
 	{"membership", "C20"},
+	{"membership-late-leader", "C20"},
 }
 
 func runServers(c *Ctx) {
@@ -95,6 +96,8 @@ func runServers(c *Ctx) {
 				srvPlacementMembers(c)
 			case "membership":
 				srvMembership(c, rng.Intn(2) == 0)
+			case "membership-late-leader":
+				srvMembershipLateLeader(c)
 			}
 		}
 	}
@@ -1152,4 +1155,87 @@ func srvMembership(cx *Ctx, hard bool) {
 		return
 	}
 	lagging(4, 5, 1, 2)
+}
+
+// ---- C20: the leader joined after the snapshot it holds. Member 1 compacts its log while it is alone;
+// members 2 and 3 join (each is brought up to date with that snapshot plus the entries after it);
+// member 1 stops, so 2 or 3 leads; member 4 joins: the leader has to send it the only snapshot it
+// holds — whose address book lists member 1 alone. Member 4 knows everybody from the join handshake;
+// it must still do so (and catch up) after installing that snapshot.
+func srvMembershipLateLeader(cx *Ctx) {
+	c := newSrvCluster(cx, "C20")
+	out := c.out
+	out.Begin("servers membership: the leader joined after the snapshot it holds")
+	defer out.End()
+	defer c.close()
+	if err := c.start(1); err != nil {
+		out.Local("set-up failed: %v", err)
+		return
+	}
+	if _, _, err := c.createPatiently(1, 2, 1, 1, 30*time.Second); err != nil { // something to snapshot
+		out.Local("set-up: create failed: %v", err)
+		return
+	}
+	c.snapshotNow()
+	for _, id := range []uint64{2, 3} {
+		if err := c.start(id, 1); err != nil {
+			out.Local("set-up: node %d failed to join: %v", id, err)
+			return
+		}
+	}
+	want := func(ids ...uint64) []string {
+		var w []string
+		for _, id := range ids {
+			w = append(w, fmt.Sprintf("%d@%s", id, c.nodes[id].port))
+		}
+		sort.Strings(w)
+		return w
+	}
+	listed := func(asked []uint64, w []string, d time.Duration) (map[uint64][]string, bool) {
+		got := map[uint64][]string{}
+		ok := waitForSlow(d, func() bool {
+			for _, id := range asked {
+				m, err := c.members(id)
+				if err != nil {
+					got[id] = []string{"error: " + err.Error()}
+					return false
+				}
+				got[id] = m
+				if strings.Join(m, " ") != strings.Join(w, " ") {
+					return false
+				}
+			}
+			return true
+		})
+		return got, ok
+	}
+	if got, ok := listed([]uint64{1, 2, 3}, want(1, 2, 3), 45*time.Second); !ok {
+		out.Violate("C20", "C20/servers/members-differ", fmt.Sprintf("after two acknowledged joins every member must list %v; after 45 s: %v", want(1, 2, 3), got))
+		return
+	}
+	c.stop(1, false)
+	var leader string
+	if !waitForSlow(30*time.Second, func() bool { leader = c.ask(2, "leader", 5*time.Second); return leader == "LEADER 2" || leader == "LEADER 3" }) {
+		out.Local("members 2 and 3 elected no leader within 30 s after member 1 stopped (%s): scenario not reached", leader)
+		return
+	}
+	out.Local("member 1 (the only one that has cut a snapshot) stopped; %s", leader)
+	join := uint64(2)
+	if err := c.start(4, join); err != nil {
+		out.Violate("C20", "C20/servers/join-fails", fmt.Sprintf("node 4 cannot join through member %d while members 2 and 3 (a quorum of 3) are up: %v", join, err))
+		return
+	}
+	out.Nontrivial("late-leader-snapshot")
+	if got, ok := listed([]uint64{2, 3, 4}, want(1, 2, 3, 4), 45*time.Second); !ok {
+		c.died()
+		out.Violate("C20", "C20/servers/joiner-cut-off", fmt.Sprintf("node 4's join was acknowledged; the leader (%s) joined after the only snapshot it holds, so the snapshot it sent node 4 lists neither leader nor member 3. 45 s later the members list: %v (expected %v everywhere); node 4's own log: %s", leader, got, want(1, 2, 3, 4), c.nodeLog(4, 25)))
+		return
+	}
+	if err := c.start(1); err != nil {
+		out.Violate("C20", "C20/servers/restart-fails", fmt.Sprintf("member 1 does not start again: %v", err))
+		return
+	}
+	if got, ok := listed([]uint64{1, 2, 3, 4}, want(1, 2, 3, 4), 45*time.Second); !ok {
+		out.Violate("C20", "C20/servers/members-differ", fmt.Sprintf("after member 1 came back every member must list %v; after 45 s: %v", want(1, 2, 3, 4), got))
+	}
 }
